@@ -18,6 +18,8 @@ CLAIMED = {
          "§5 C18", "SQLite transaction isolation trusted; processes modelled as interleaved atomic operations; monotone clock"),
  "C19": ("proof", "Theorems (Props/C19.v): the (repaired, path-local) circular-reference check never refuses an acyclic foreign-key graph, always refuses a genuinely cyclic one whose keys are well-formed, and always terminates. Correspondence of the rule checks and the cycle check with the real Dataschema on all well-formed schemas over <=3 types (+4/5 types sampled or complete) and schemas with injected documented mistakes, oracle = independent transitive-closure cycle test + 'error names the offending <type.attr>'; start-up walk of server and client configurations (each optional setting omitted, bounded settings at and beyond their limits, documented mistakes) classified as started / configuration error / crash.",
          "§5 C19", "Cerberus, PyYAML and Jinja are black boxes: their verdict enters the start-up decision as a fact set by construction of each variant"),
+ "C20": ("proof", "Theorems (Props/C20.v): every message is dropped or handled (decode is total); a paused, unforced application never polls; a forced update polls exactly once and leaves the schedule untouched; the schedule never lags more than one interval behind the clock through any iteration, hence at most two polls in a row after a resume (no burst); pause/resume return-code table. Correspondence: raw bytes (malformed, truncated, flipped, huge, deep, non-UTF-8) over a real Unix socket to the real SockServer with the server's and the client's handlers in random flag states, each followed by a status liveness probe; random command scripts interleaved with iterations of the real HermesServer.mainLoop under a virtual clock; status content with and without a data error.",
+         "§5 C20", "thread scheduling, kernel socket buffers and real time are outside the model (the listener loop is played by a helper thread of the harness); the client's scheduling is only covered through its command handlers"),
 }
 REASON_TODO = "check not built yet in this revision (work in progress; see DESIGN.md §8)"
 def main():
